@@ -195,6 +195,9 @@ def main(tier):
     chk.rule("STATUS", "status stores are unreachable from a terminal status", floor=5)
     chk.rule("GUARD", "broadcast is offered only when all seven conditions hold", floor=9)
     chk.rule("COLS", "store schema / INSERT / SELECT column agreement", floor=8)
+    chk.rule("DIRTY", "every state mutation of advance_migration marks the state dirty and a dirty "
+                      "state is persisted before returning", floor=8)
+    chk.rule("CHANGED", "the store's rollback persists whenever the rolled-back state differs", floor=1)
     chk.rule("control", "positive controls", floor=2)
 
     w = zf.World(extract.facts_dir("all"), ["zcash_pool_migration", "zcash_client_sqlite",
@@ -234,6 +237,8 @@ def main(tier):
 
     guards(chk, w)
     columns(chk, w)
+    dirty_rules(chk, w)
+    change_detect(chk, w)
     controls(chk, w)
     chk.finish()
 
@@ -598,3 +603,238 @@ def controls(chk, w):
         chk.ok("control", "assume-analysis sees a true return when the guard passes")
     else:
         chk.fail("control", "assume-true", "control not flagged")
+
+
+# ---------------------------------------------------------------------- DIRTY
+def _names(body, du, op, depth=0, acc=None):
+    """debug names of the user variables an operand is computed from"""
+    acc = acc if acc is not None else set()
+    if depth > 10 or op is None or op.kind not in ("copy", "move"):
+        return acc
+    l = op.place.local
+    nm = body.local_name(l)
+    if nm and nm != "iter":        # `iter` is the hidden variable of a desugared for loop
+        acc.add(nm)
+        return acc
+    d = du.single(l)
+    if d is None:
+        return acc
+    kind, _bi, x = d
+    if kind == "call":
+        for a in x.args:
+            _names(body, du, a, depth + 1, acc)
+    else:
+        rv = x.rv
+        for o in rv.ops:
+            _names(body, du, o, depth + 1, acc)
+        if rv.kind in ("ref", "disc") and rv.place is not None:
+            _names(body, du, zf.Op("copy", zf.Place([rv.place.local])), depth + 1, acc)
+    return acc
+
+
+def dirty_rules(chk, w):
+    fs = [f for f in w.fns.values() if f.p.endswith("satisfiability::advance_migration")]
+    if len(fs) != 1:
+        chk.fail("DIRTY", "advance_migration/missing", "advance_migration not found")
+        return
+    f = fs[0]
+    body = f.body
+    du = defuse.DefUse(body)
+    dl = [i for i, (_t, n) in enumerate(body.locals) if n == "dirty"]
+    if len(dl) != 1:
+        chk.fail("DIRTY", "flag/missing", "the dirty flag of advance_migration was not found (%d "
+                 "candidates): the persistence discipline the rule checks has changed shape" % len(dl),
+                 f.span.loc())
+        return
+    d = dl[0]
+    true_blocks = set()
+    or_blocks = {}       # block -> names of collections whose non-emptiness sets the flag
+    for bi, blk in enumerate(body.blocks):
+        for s in blk.stmts:
+            if s.kind == "=" and not s.place.proj and s.place.local == d:
+                if s.rv.kind == "use" and s.rv.ops[0].kind == "const" and s.rv.ops[0].info.get("v") == 1:
+                    true_blocks.add(bi)
+                elif s.rv.kind == "bin" and s.rv.op == "BitOr":
+                    names = set()
+                    for o in s.rv.ops:
+                        if o.kind in ("copy", "move") and o.place.local != d:
+                            # !X.is_empty()
+                            dd = du.single(o.place.local)
+                            if dd and dd[0] == "stmt" and dd[2].rv.kind == "un" and dd[2].rv.op == "Not":
+                                src = du.single(dd[2].rv.ops[0].place.local)
+                                if src and src[0] == "call" and src[2].callee.indirect is None and \
+                                        src[2].callee.target_p().endswith("::is_empty"):
+                                    names |= _names(body, du, src[2].args[0])
+                    or_blocks[bi] = names
+    # pushes per collection name
+    pushes = {}
+    for bb, t in body.calls():
+        if t.callee.indirect is None and t.callee.target_p().endswith("::push") and t.args:
+            for nm in _names(body, du, t.args[0]):
+                pushes.setdefault(nm, []).append(bb)
+    import sqlfx
+    cyc = sqlfx.cyclic_blocks(body)
+    muts = []
+    for bb, t in body.calls():
+        if t.callee.indirect is None and t.args:
+            a = t.args[0]
+            if a.kind in ("copy", "move") and not a.place.proj and body.local_ty(a.place.local).startswith(
+                    "&mut zcash_pool_migration::engine::MigrationState"):
+                muts.append((bb, t))
+    if len(muts) < 6:
+        chk.fail("DIRTY", "mutators", "only %d state mutations found in advance_migration" % len(muts),
+                 f.span.loc())
+    ordn = {}
+    for bb, t in muts:
+        name = t.callee.target_p().rsplit("::", 1)[-1]
+        ordn[name] = ordn.get(name, 0) + 1
+        key = "%s#%d" % (name, ordn[name])
+        if t.target is None:
+            continue
+        # collections that "cover" this mutation
+        cover = set()
+        for nb, nt in body.calls():
+            if nt.callee.indirect is None and re.search(r"Iterator>?::next$", nt.callee.target_p()) \
+                    and body.dominates(nb, bb) and nb in cyc and bb in cyc and nb in body.reachable(bb):
+                cover |= _names(body, du, nt.args[0])
+        for sb, blk in enumerate(body.blocks):
+            if blk.term.kind == "switch" and body.dominates(sb, bb) and sb != bb:
+                dsw = blk.term.discr
+                if dsw.kind in ("copy", "move") and not dsw.place.proj:
+                    dd = du.single(dsw.place.local)
+                    src = None
+                    if dd and dd[0] == "stmt" and dd[2].rv.kind == "un" and dd[2].rv.op == "Not":
+                        src = du.single(dd[2].rv.ops[0].place.local)
+                        arm = dict(blk.term.arms).get(1, blk.term.otherwise)
+                    elif dd and dd[0] == "call":
+                        src = dd
+                        arm = dict(blk.term.arms).get(0, blk.term.otherwise)
+                    if src is not None and not (arm == bb or body.dominates(arm, bb)):
+                        src = None
+                    if src is not None:
+                        if src and src[0] == "call" and src[2].callee.indirect is None and \
+                                src[2].callee.target_p().endswith("::is_empty"):
+                            for v in _names(body, du, src[2].args[0]):
+                                cover.add(v)
+                                # V non-empty implies X non-empty when every push to V is dominated
+                                # by a push to X
+                                for x, xs in pushes.items():
+                                    if x != v and pushes.get(v) and all(
+                                            any(body.dominates(pb, vb) for pb in xs) for vb in pushes[v]):
+                                        cover.add(x)
+        setters = set(true_blocks) | {b for b, names in or_blocks.items() if names & cover}
+        res = S.explore(body, t.target, {}, avoid=tuple(setters))
+        bad = [rv for _b, rv in res.returns if rv != "variant:Err"]
+        if bad or res.too_big:
+            chk.fail("DIRTY", "advance_migration/" + key, "after %s mutates the migration state a "
+                     "successful return is reachable without marking the state dirty: the change "
+                     "would live in memory only and be lost on the next load" % name, t.span.loc())
+        else:
+            chk.ok("DIRTY", "%s [%s]: every successful continuation marks the state dirty"
+                   % (name, t.span.loc()), sample=True)
+    # a dirty state is written before every successful return
+    persist_sw = []
+    for sb, blk in enumerate(body.blocks):
+        ds = blk.term.discr if blk.term.kind == "switch" else None
+        if ds is not None and ds.kind in ("copy", "move") and not ds.place.proj:
+            o = du.origin(ds)
+            if ds.place.local == d or o == ("local", d):
+                arms = dict(blk.term.arms)
+                tgt = blk.term.otherwise if 0 in arms else arms.get(1)
+                res = S.explore(body, tgt, {}, avoid=(sb,))
+                calls = [c.callee.target_p() for _b, c in res.calls if c.callee.indirect is None]
+                first_write = any(c.endswith("::replace_migration") for c in calls[:3])
+                if first_write:
+                    persist_sw.append(sb)
+    okret = True
+    for rb in body.exits():
+        # Ok returns only: skip blocks that only error paths reach
+        if not any(body.dominates(sb, rb) for sb in persist_sw):
+            # is this an error-only return? check whether an Ok aggregate/unknown reaches it
+            preds_ok = True
+            res = S.explore(body, 0, {}, avoid=tuple(persist_sw))
+            if any(b == rb and rv != "variant:Err" for b, rv in res.returns):
+                okret = False
+    if persist_sw and okret:
+        chk.ok("DIRTY", "every successful return of advance_migration passes an `if dirty` test whose "
+               "true arm writes the state (%d such tests)" % len(persist_sw), sample=True)
+    else:
+        chk.fail("DIRTY", "advance_migration/persist", "a successful return of advance_migration is "
+                 "reachable without passing the `if dirty { store.replace_migration(..) }` write",
+                 f.span.loc())
+
+
+# ---------------------------------------------------------------------- CHANGED
+def change_detect(chk, w):
+    """the sqlite store rolls a stored migration back by loading it, truncating the copy and writing
+    it back if it changed: the change test must see everything truncation can change"""
+    fs = [f for f in w.fns.values()
+          if f.p == "zcash_client_sqlite::pool_migration::store::truncate_to_height"]
+    ts = [f for f in w.fns.values() if re.search(r"MigrationState>::truncate_to_height$", f.p)]
+    if len(fs) != 1 or len(ts) != 1:
+        chk.fail("CHANGED", "anchors", "store::truncate_to_height / MigrationState::truncate_to_height "
+                 "not found (%d, %d)" % (len(fs), len(ts)))
+        return
+    f, tr = fs[0], ts[0]
+    written = set()
+    for blk in tr.body.blocks:
+        for s in blk.stmts:
+            if s.kind == "=" and s.place.proj and s.place.proj[-1].startswith(".") and "*" in s.place.proj:
+                written.add(s.place.proj[-1][1:])
+    body = f.body
+    du = defuse.DefUse(body)
+    wr = S.find_calls(body, r"::replace_migration_row$")
+    if not wr:
+        chk.fail("CHANGED", "no-write", "store::truncate_to_height no longer writes the rolled-back "
+                 "migration", f.span.loc())
+        return
+    wb = wr[0][0]
+    # the controlling comparison
+    ctrl = None
+    for bb, t in body.calls():
+        if t.callee.indirect is None and body.dominates(bb, wb) and t.dest is not None and \
+                not t.dest.proj and body.local_ty(t.dest.local) == "bool":
+            ctrl = (bb, t)
+    if ctrl is None:
+        chk.ok("CHANGED", "the rolled-back migration is written unconditionally")
+        return
+    bb, t = ctrl
+    name = t.callee.target_p()
+    if re.search(r"core::cmp::PartialEq::(eq|ne)$", t.callee.p or "") and \
+            "MigrationState" in (t.callee.self_ty or ""):
+        chk.ok("CHANGED", "store::truncate_to_height writes back iff the whole MigrationState differs "
+               "(derived equality over all fields; truncation writes %s)" % sorted(written), sample=True)
+        return
+    g = w.fns.get(t.callee.target_id())
+    if g is None:
+        chk.fail("CHANGED", "predicate/unknown", "write-back is controlled by %s, which cannot be "
+                 "analysed" % name, t.span.loc())
+        return
+    seen, _ = w.reach([g.id], stop=lambda x: x != g.id and not w.fns[x].is_closure())
+    read = set()
+    whole = False
+    for x in seen:
+        h = w.fns[x]
+        for blk in h.body.blocks:
+            for s in blk.stmts:
+                if s.kind == "=":
+                    for pl in [o.place for o in s.rv.ops if o.kind in ("copy", "move")] + \
+                            ([s.rv.place] if s.rv.kind in ("ref", "disc") else []):
+                        for p in pl.proj:
+                            if p.startswith("."):
+                                read.add(p[1:])
+            tt = blk.term
+            if tt.kind == "call" and tt.callee.indirect is None:
+                read.add(tt.callee.target_p().rsplit("::", 1)[-1])     # getters
+                if re.search(r"core::cmp::PartialEq::(eq|ne)$", tt.callee.p or "") and \
+                        "MigrationState" in (tt.callee.self_ty or ""):
+                    whole = True
+    missing = sorted(x for x in written if x not in read)
+    if whole or not missing:
+        chk.ok("CHANGED", "the change test %s reads every field truncation can change %s"
+               % (name.rsplit("::", 1)[-1], sorted(written)), sample=True)
+    else:
+        chk.fail("CHANGED", "predicate/" + name.rsplit("::", 1)[-1], "the change test that decides "
+                 "whether the rolled-back migration is written ignores %s, which "
+                 "MigrationState::truncate_to_height can change: such a rollback stays in memory and "
+                 "the stored migration differs from the engine's state" % missing, t.span.loc())
